@@ -186,7 +186,7 @@ PROPS = {
         'technique': 'modular Verus proof of the real packet builders of net/ipv4.rs and net/ipv6.rs against the imported contracts of the packet codec (pkt_views, pkt_checksum); Kani harnesses on the real dispatch functions with a capturing socket',
         'level_text': 'make_ipv4_packet is proved to produce, for every payload and configuration, a header with version 4, IHL 5, the configured TOS, total length 20+payload in network order, the given identification, DF set / offset 0, the probe ttl, the protocol number, source and destination addresses and the payload at octet 20 (RFC 791 positions); make_udp_packet (v4 and v6): ports, length = 8+payload, payload, checksum = RFC 1071 over pseudo header and datagram; make_echo_request_icmp_packet (v4 and v6): type 8/128, code 0, identifier, sequence, pattern payload, checksum; payload-size helpers make the total size equal the configured packet size. All slice bounds of the builders are discharged at their call preconditions.',
         'level_note': 'The codec is used through contracts proved in units pkt_views / pkt_checksum (imported, not re-verified). dispatch_* (socket calls, error mapping closures, Paris swap) are covered by bounded Kani harnesses with concrete packet sizes 28 and 33 (all other inputs symbolic), not by Verus. Non-raw/unprivileged paths and TCP: argument plumbing only; the IPv4 header checksum is the kernel\'s. Trusted: pattern_array/zero_array shims for `[x; N]`.',
-        'units': ['core_net_build'],
+        'units': ['core_net_build', 'pkt_views'],
         'kani': {'quick': ['k4_dispatch_icmp_28'],
                  'thorough': ['k4_dispatch_icmp_28', 'k4_dispatch_icmp_33', 'k4_dispatch_udp_28', 'k4_dispatch_udp_33', 'k4_dispatch_udp_paris', 'k6_dispatch_icmp_53', 'k6_dispatch_udp_dublin']},
         'assumptions': ['Linux target: Ipv4ByteOrder::Host is compiled out'],
@@ -196,9 +196,10 @@ PROPS = {
         'level': 'proof',
         'technique': 'Verus contract on State::update_from_round / update_trace_flow over ghost views of the registry and the per-flow map, with the registry contract imported; bounded Kani stand-ins for flows.rs',
         'level_text': 'State::update_from_round is proved to keep identifiers dense from 1 and stable, never to exceed max_flows, to count every round for the default flow, to attribute a round that matches a registered flow to the first such flow (its round count +1, round_flow_id set) also once max_flows is reached, and to touch no other flow. The registry operations themselves (Flow::check / merge / from_hops, FlowRegistry::register / contains_match) are iterator-adapter code: bounded Kani stand-ins (flows of 1-2 entries with concrete lengths, one registered flow).',
-        'level_note': 'Trusted in the Verus unit: the contract of FlowRegistry::register / contains_match (as checked bounded by Kani), HashMap entry shim, FlowState::update_from_round contract (unit core_state), and round_flow(): the inline iterator chain that builds the round\'s flow (position <-> ttl) is NOT verified (D-C15b in DESIGN.md). Bounded stand-ins are not counted as proved.',
-        'units': ['core_state_flows'],
-        'kani': {'quick': ['k_flow_check_contract', 'k_flow_merge_2_1', 'k_flow_merge_1_2', 'k_flow_merge_2_2', 'k_flow_from_hops_contract', 'k_registry_register_2_1', 'k_registry_register_2_2', 'k_registry_contains_match_contract']},
+        'level_note': 'Trusted in the Verus unit: the contract of FlowRegistry::register / contains_match (as checked bounded by Kani), HashMap entry shim, FlowState::update_from_round contract (unit core_state), and round_flow(): the inline iterator chain that builds the round\'s flow is abstracted in the Verus unit; its position <-> ttl contract is checked bounded by Kani on the statement lifted verbatim from State::update_from_round (k_round_flow_positions_*; D-C15b was found this way and fixed). Bounded stand-ins are not counted as proved.',
+        'units': ['core_state_flows', 'core_state'],
+        'kani': {'quick': ['k_flow_check_contract', 'k_flow_merge_2_1', 'k_flow_merge_1_2', 'k_flow_merge_2_2', 'k_flow_from_hops_contract', 'k_registry_register_2_1', 'k_registry_register_2_2', 'k_registry_contains_match_contract', 'k_round_flow_positions_2'],
+                 'thorough': ['k_flow_check_contract', 'k_flow_merge_2_1', 'k_flow_merge_1_2', 'k_flow_merge_2_2', 'k_flow_from_hops_contract', 'k_registry_register_2_1', 'k_registry_register_2_2', 'k_registry_contains_match_contract', 'k_round_flow_positions_2', 'k_round_flow_positions_1']},
         'assumptions': [],
         'explanation': 'flow attribution',
     },
@@ -225,7 +226,7 @@ PROPS = {
         'technique': 'Verus data-structure invariant on TracerState (sequence allocator + 512-slot buffer) preserved by every operation; separation lemmas',
         'level_text': 'The invariant wf (initial <= round_sequence <= sequence, at most 512 sequences per round, round_sequence < max_sequence, hence sequence <= 65534, every issued slot holds a probe of this round with sequence round_sequence+i) is established by new and preserved by next_probe, reissue_probe, fail_probe, complete_probe, advance_round, send_request, recv_response, update_round; every buffer index and every u16/u8 operation in these functions is proved in range; an exhausted TCP round yields Error::InsufficientCapacity; lemmas: a sequence of the preceding round is not accepted in the current one.',
         'level_note': 'Trusted: as C03. The Dublin/IPv6 payload slice bound in the real dispatch_udp_probe_raw is discharged by the loop-free Kani harness k6_dublin_payload_fits over every sequence the allocator can issue in that regime (sequence - initial <= 765).',
-        'units': ['core_strategy'],
+        'units': ['core_strategy', 'core_builder'],
         'kani': {'quick': ['k6_dublin_payload_fits']},
         'assumptions': [],
         'explanation': 'sequence allocator invariant',
